@@ -509,6 +509,64 @@ func init() {
 		return cell
 	})
 
+	// --- sync.Map: native association list keyed by interface values ---
+	syncMapOf := func(in *Interp, recv Value) *Map {
+		p := recv.(*Value)
+		if in.syncMaps == nil {
+			in.syncMaps = map[*Value]*Map{}
+		}
+		m, ok := in.syncMaps[p]
+		if !ok {
+			m = newMap(nil)
+			in.syncMaps[p] = m
+		}
+		return m
+	}
+	reg("(*sync.Map).Load", func(in *Interp, fr *frame, args []Value) Value {
+		if e := in.mapFind(syncMapOf(in, args[0]), args[1]); e != nil {
+			return Tuple{e.v, True}
+		}
+		return Tuple{Iface{}, False}
+	})
+	reg("(*sync.Map).Store", func(in *Interp, fr *frame, args []Value) Value {
+		in.mapInsert(syncMapOf(in, args[0]), args[1], args[2])
+		return nil
+	})
+	reg("(*sync.Map).LoadOrStore", func(in *Interp, fr *frame, args []Value) Value {
+		m := syncMapOf(in, args[0])
+		if e := in.mapFind(m, args[1]); e != nil {
+			return Tuple{e.v, True}
+		}
+		in.mapInsert(m, args[1], args[2])
+		return Tuple{args[2], False}
+	})
+	reg("(*sync.Map).Delete", func(in *Interp, fr *frame, args []Value) Value {
+		in.mapDelete(syncMapOf(in, args[0]), args[1])
+		return nil
+	})
+	reg("(*sync.Map).LoadAndDelete", func(in *Interp, fr *frame, args []Value) Value {
+		m := syncMapOf(in, args[0])
+		if e := in.mapFind(m, args[1]); e != nil {
+			v := e.v
+			in.mapDelete(m, args[1])
+			return Tuple{v, True}
+		}
+		return Tuple{Iface{}, False}
+	})
+	reg("(*sync.Map).Range", func(in *Interp, fr *frame, args []Value) Value {
+		m := syncMapOf(in, args[0])
+		for _, e := range append([]*mapEntry(nil), m.entries...) {
+			if e.deleted {
+				continue
+			}
+			r := in.call(fr, 0, args[1], []Value{e.k, e.v})
+			if !in.ex.branch(r.(*Term)) {
+				break
+			}
+		}
+		return nil
+	})
+
 	// --- sync/atomic ---
 	for _, ty := range []string{"Int32", "Int64", "Uint32", "Uint64", "Uintptr"} {
 		reg("sync/atomic.Load"+ty, func(in *Interp, fr *frame, args []Value) Value { return in.loadFrom(args[0]) })
